@@ -171,6 +171,7 @@ def apply_contract(I, c, qn, args, kwargs, fr, site, finfo=None):
         env.update(kwargs)
     snap = st.snapshot()
     sf = spec_frame(I, finfo, env, snap, module=c.get("module"), cls=c.get("cls"))
+    sf.old_ghost = dict(st.ghost)
     for i, (lab, r) in enumerate(labelled(c.get("requires"))):
         t = I.truthy(I.E.eval_spec_in(I, r, sf))
         st.oblige("%s::pre(%s.%s)::%s" % (caller, short(qn), lab, site), t, kind="pre")
@@ -194,7 +195,10 @@ def apply_contract(I, c, qn, args, kwargs, fr, site, finfo=None):
         else:
             res = I.fresh_of_type(rt, "%s.ret" % short(qn))
         sf.locals["result"] = res
+        exported = c.get("caller_ensures")
         for lab, e in labelled(c.get("ensures")):
+            if exported is not None and lab not in exported:
+                continue
             st.assume(zbool(I.truthy(I.E.eval_spec_in(I, e, sf))))
         for g, e in (c.get("ghost") or {}).items():
             st.ghost[g] = I.E.eval_spec_in(I, e, sf)
@@ -290,6 +294,8 @@ def _len(I, self, args, kw, fr, site):
         return VInt(len(v.args))
     if not fr.spec and isinstance(v, (VNone, VInt, VBool)):
         I.raise_py("TypeError", "object has no len()", site)
+    if fr.spec:
+        return VInt(st.fresh_int("undef_len"))   # partial operation in a specification: unconstrained
     raise Unsupported("len of %s" % I.type_name(v))
 
 
@@ -320,6 +326,8 @@ def _isinstance(I, self, args, kw, fr, site):
     classes = c.items if isinstance(c, VTuple) else [c]
     tn = I.type_name(v)
     for k in classes:
+        if isinstance(k, VFunc) and k.qualname.startswith("builtins."):
+            k = VClass(k.qualname[9:])
         if not isinstance(k, VClass):
             raise Unsupported("isinstance against %r" % (k,))
         if I.E.type_is(tn, k.qualname, v):
@@ -330,6 +338,8 @@ def _isinstance(I, self, args, kw, fr, site):
 @intrinsic("builtins.issubclass")
 def _issubclass(I, self, args, kw, fr, site):
     a, b = args
+    if isinstance(b, VFunc) and b.qualname.startswith("builtins."):
+        b = VClass(b.qualname[9:])
     if isinstance(a, VClass) and isinstance(b, VClass):
         return VBool(I.E.type_is(a.qualname, b.qualname, None))
     raise Unsupported("issubclass")
